@@ -12,12 +12,15 @@ TRUSTED_BASE = [
 ]
 ASSUMPTIONS = [
     "100 MiB downloads and 120 MiB uploads are run in the thorough tier only; the quick tier covers the bounds through the request heads (400 answers) and 1-3 MiB transfers",
-    "HTTP/3 reverse-proxy requests (h3_backward_compatibility) are not driven (no QUIC transport in the harness)",
+    "the h3_backward_compatibility rewriting of HTTP/3 reverse-proxy requests (GET / -> CONNECT) is not driven",
+    "scripted-origin cases: response heads up to 8 KiB and 100 fields (what common origin servers emit by default) must be relayed; larger ones are not judged",
 ]
 RULE = ("channels: ping host, speedtest host, reverse-proxy host, tunnel host with routing by markers/paths; HTTP/1.1 and HTTP/2; with and without a configured "
         "authenticator (no credentials sent); GET /Nmb.bin for N in {0, 1, 2, 3, 100(thorough), 101, 1000, +1, 01, 1.5, -1, empty, and sizes that a wrap in 8/16/32 bits would bring back into range: 257, 65537, 4097, 4196, 8193, 4194305}, other suffixes and methods; POST /upload.html "
         "with Content-Length in {absent, 0, 1, 1000, 70000, 120 MiB (thorough), 120 MiB + 1, 2^32, text}; /speed/ prefix on tunnel hosts with speedtest enabled/disabled; "
         "downloads that take longer than the handler timeout (slow reader, 100-200 ms timeout); reverse proxy with loopback origin x private connections allowed/refused, path mask on the tunnel host with/without Upgrade; slow-reading client; "
+        "reverse proxy against a scripted origin (HTTP/1.1 through the door and the TLS listener, HTTP/3 through the QUIC listener): requests with a body of 5 .. 300000 bytes that the origin "
+        "reads entirely, half or not at all before it answers; response heads of 60 .. 8000 bytes and 1 .. 100 fields written in one piece or cut at chosen and random offsets; "
         "non-trivial = every case; distinct = distinct request")
 
 
@@ -112,8 +115,70 @@ def gen_cases(rng, ctx):
             add([3, 0, private, 1, 0, auth, 0], 6, "/x", hs=[("upgrade", "test")], expect="rp", name="rp:host-private%d" % private)
             add([3, 0, private, 1, 0, auth, 0], 7, "/rp/anything", hs=[("content-length", "0")], expect="rp", name="rp:host-post-private%d" % private)
             add([0, 0, private, 1, 0, auth, 0], 6, "/rp/x", hs=[("upgrade", "test")], expect="rp", name="rp:mask-on-tunnel-host-private%d" % private)
+    cases += gen_rp_cases(rng, thorough)
     # the request head the reverse proxy writes to the origin (encode_request) through the door
     cases += gen_wire_cases(rng, 60 if thorough else 20, responses=False)
+    return cases
+
+
+FRONTS = {0: "HTTP/1.1 through the door", 1: "HTTP/1.1 over the real TLS listener", 3: "HTTP/3 over the real QUIC listener"}
+
+
+def response_head(status, reason, fields):
+    return ("HTTP/1.1 %d %s\r\n" % (status, reason)).encode() + b"".join(n.encode() + b": " + v.encode() + b"\r\n" for n, v in fields) + b"\r\n"
+
+
+def gen_rp_cases(rng, thorough):
+    """The reverse proxy against a scripted origin (engine c18_rp): request bodies that the origin wants to see before it answers,
+    response heads of the sizes and field counts that common servers emit (up to 8 KiB, up to 100 fields), written by the origin in
+    one piece or cut into segments."""
+    cases = []
+
+    def add(front, name, method=6, path="/x", req_hs=(), req_body=(0, 0, 0), wants=0, pause=80, cuts=(), status=200, reason="OK", fields=(), resp_len=2):
+        fields = [("Content-Length", str(resp_len))] + list(fields)
+        head = response_head(status, reason, fields)
+        resp_seed = rng.below(256)
+        li = line("c18_rp", [[front, 0], [method], list(path.encode()), flat(req_hs), list(req_body), [wants, pause] + list(cuts), list(head), [resp_len, resp_seed]])
+        cases.append(Case(li, None, kind="rp-origin:" + name + {0: "", 1: "-listener", 3: "-quic"}[front], nontrivial=True,
+                          meta={"rp": True, "front": front, "method": {6: "GET", 7: "POST", 8: "PUT"}[method], "path": path, "req_hs": list(req_hs),
+                                "req_body": list(req_body), "wants": wants, "cuts": list(cuts), "status": status, "fields": fields,
+                                "head_len": len(head), "resp_len": resp_len}))
+
+    def padded(total, extra=()):
+        """fields that bring the response head to exactly `total` bytes"""
+        base = len(response_head(200, "OK", [("Content-Length", "2")] + list(extra) + [("X-Pad", "")]))
+        return list(extra) + [("X-Pad", "p" * (total - base))]
+
+    def many(n):
+        return [("X-F%d" % i, "v%d" % i) for i in range(n - 1)]      # Content-Length is the n-th
+
+    for front in (0, 1, 3):
+        h3 = front == 3
+        # (1) the request has a body and the origin answers once it has read it
+        add(front, "post-5-bytes", method=7, path="/form", req_hs=[("content-length", "5")], req_body=(5, rng.below(256), 0), wants=5)
+        add(front, "post-5-bytes-after-a-pause", method=7, path="/form", req_hs=[("content-length", "5")], req_body=(5, rng.below(256), 150), wants=5)
+        add(front, "post-100000-bytes", method=7, path="/rp/upload", req_hs=[("content-length", "100000")], req_body=(100000, rng.below(256), 0), wants=100000, resp_len=10)
+        add(front, "put-origin-answers-half-way", method=8, path="/rp/item", req_hs=[("content-length", "3000")], req_body=(3000, rng.below(256), 0), wants=1500)
+        # an origin that answers at once and reads the body afterwards
+        add(front, "post-origin-answers-first", method=7, path="/form", req_hs=[("content-length", "%d" % (2000 if h3 else 300000))],
+            req_body=(2000 if h3 else 300000, rng.below(256), 0), wants=0, resp_len=5000)
+        # (2) response heads: sizes
+        add(front, "head-small", resp_len=1000)
+        add(front, "head-1000-bytes", fields=padded(1000))
+        add(front, "head-1449-bytes-whole", fields=padded(1449))
+        add(front, "head-1449-bytes-cut-at-1100", fields=padded(1449), cuts=[1100])
+        add(front, "head-1449-bytes-cut-at-500-1100", fields=padded(1449), cuts=[500, 1100], resp_len=3000)
+        add(front, "head-1025-bytes-cut-at-1024", fields=padded(1025), cuts=[1024])
+        if not h3:
+            add(front, "head-4000-bytes-whole", fields=padded(4000))
+            add(front, "head-4000-bytes-cut-at-1100", fields=padded(4000), cuts=[1100])
+            add(front, "head-8000-bytes-cut-at-3000-6000", fields=padded(8000, extra=many(20)), cuts=[3000, 6000], resp_len=20000)
+            n = 1025 + rng.below(7000)
+            add(front, "head-random-size", fields=padded(n), cuts=sorted({1 + rng.below(n - 1) for _ in range(rng.choice([0, 1, 2, 3]))}))
+        # (3) response heads: field counts
+        for n in ((20, 32, 33, 64, 100) if not h3 else (32, 40)):
+            add(front, "head-%d-fields" % n, fields=many(n), cuts=[] if n != 64 else [200])
+        add(front, "status-404-with-fields", status=404, reason="Not Found", fields=many(40), resp_len=300)
     return cases
 
 
@@ -125,11 +190,73 @@ def known_finding(case, kind, msg, known):
     return None
 
 
+def unflat(xs):
+    out, i = [], 0
+    while i < len(xs):
+        n = xs[i]
+        name = bytes(xs[i + 1:i + 1 + n])
+        i += 1 + n
+        n = xs[i]
+        out.append((name, bytes(xs[i + 1:i + 1 + n])))
+        i += 1 + n
+    return out
+
+
+def judge_rp(case, impl):
+    """Direct oracle for the scripted-origin cases, from the property text: the request reaches the configured origin as an HTTP/1.1
+    request carrying X-Original-Protocol - its body is part of it -, and the origin's response (status, fields, body) is relayed."""
+    m = case.meta
+    what = "%s, %s %s %s" % (case.kind, FRONTS[m["front"]], m["method"], m["path"])
+    if impl == "995":
+        return [("violation", "%s: the exchange hung" % what)]
+    t = impl.split()
+    status = untok(t[0])[0]
+    got_fields = unflat(untok(t[1]))
+    body_len, body_ok = untok(t[2])
+    origin_head = bytes(untok(t[3]))
+    accepts, o_body, o_body_ok, answered = untok(t[4])
+    req_len = m["req_body"][0]
+    resp = "response head of %d bytes with %d fields, written %s, and a body of %d bytes" % (
+        m["head_len"], len(m["fields"]), ("in %d pieces cut at %s" % (len(m["cuts"]) + 1, m["cuts"])) if m["cuts"] else "in one piece", m["resp_len"])
+    if accepts != 1:
+        return [("violation", "%s: %d connections reached the configured origin" % (what, accepts))]
+    lines = origin_head.split(b"\r\n")
+    hs = [l.lower() for l in lines[1:] if l]
+    proto = b"http3" if m["front"] == 3 else b"http1"
+    if lines[0] != ("%s %s HTTP/1.1" % (m["method"], m["path"])).encode() or b"x-original-protocol: " + proto not in hs:
+        return [("violation", "%s: the origin received %r: not the HTTP/1.1 request carrying X-Original-Protocol" % (what, origin_head[:160]))]
+    for n, v in m["req_hs"]:
+        if (n.lower() + ": " + v).encode() not in hs:
+            return [("violation", "%s: the request field %s: %s did not reach the origin (%r)" % (what, n, v, origin_head[:200]))]
+    if o_body != req_len or not o_body_ok:
+        return [("violation", "%s: the request has a body of %d bytes; the origin (which answers once it has %d of them) received the head and %d body bytes%s; "
+                              "the client got status %d" % (what, req_len, m["wants"], o_body, "" if o_body_ok else " (not the bytes sent)", status))]
+    if not answered:
+        return [("violation", "%s: the origin's connection was closed under it while it was writing its %s; the client received status %d and %d body bytes"
+                              % (what, resp, status, body_len))]
+    if status != m["status"]:
+        return [("violation", "%s: the origin answered %d with a %s; the client received status %d and %d body bytes" % (what, m["status"], resp, status, body_len))]
+    have = [(n.lower(), v.strip(b" \t")) for n, v in got_fields]
+    for n, v in m["fields"]:
+        k = (n.lower().encode(), v.encode())
+        if k not in have:
+            return [("violation", "%s: the origin's field %s (value of %d bytes) is missing from the response the client received (%s)" % (what, n, len(v), resp))]
+        have.remove(k)
+    if body_len != m["resp_len"] or not body_ok:
+        return [("violation", "%s: the origin sent a %s; the client received %d body bytes%s" % (what, resp, body_len, "" if body_ok else " (not the bytes sent)"))]
+    return []
+
+
 def judge(case, impl, model, spec, ctx):
     if case.meta and case.meta.get("wire"):
         return judge_wire(case, impl, model, spec)
     if impl == "999":
         return [("violation", "a service channel handler panicked on %s" % case.kind)]
+    if impl == "996":
+        ctx.setdefault("skipped_env", []).append(case.kind)
+        return []
+    if case.meta and case.meta.get("rp"):
+        return judge_rp(case, impl)
     t = impl.split()
     status = untok(t[0])[0]
     body_len, all_zero = untok(t[1])
@@ -138,9 +265,6 @@ def judge(case, impl, model, spec, ctx):
     cfg = case.meta["cfg"]
     front = case.meta.get("front", 0)
     proto = "HTTP/3 over the real QUIC listener" if front == 3 else ("HTTP/2" if cfg[1] else "HTTP/1.1") + (" over the real TLS listener" if front == 1 else "")
-    if impl == "996":
-        ctx.setdefault("skipped_env", []).append(case.kind)
-        return []
     what = "%s %s %s (authenticator %s)" % (case.kind, proto, case.meta["path"], "configured" if cfg[5] else "none")
     exp = case.meta["expect"]
     out = []
